@@ -66,7 +66,7 @@ Lemma lookalike_encrypted_l di r sh pm : ordinary di r = true -> encrypts (kind_
 Proof.
   unfold ordinary, kind_of. intros H.
   repeat (apply andb_true_iff in H; destruct H as [H ?]).
-  apply negb_true_iff in H, H0, H1, H2. now rewrite H, H2, H1, H0.
+  apply negb_true_iff in H, H0, H1, H2, H3. now rewrite H, H3, H2, H1, H0.
 Qed.
 
 Lemma strings_rt R kb fkey aes num gen ivs ss :
